@@ -450,7 +450,11 @@ class Buffer(gpp.UGenParameter, gpp.NodeParameter):
         self._start_frame = start_frame
         self._server.addr.send_msg(
             '/b_allocReadChannel', self._bufnum, path, start_frame,
-            frames, *channels, fn.value(completion_msg, self))
+            frames, *channels, *(
+                # No placeholder for a missing completion message, the
+                # server would read it as one more channel index.
+                [] if completion_msg is None
+                else [fn.value(completion_msg, self)]))
 
 
     ### Allocated buffer commands ###
